@@ -809,6 +809,17 @@ package app
 //@   requires noLocks() && p.processLogs != nil && (forall k string :: k in p.processLogs ==> p.processLogs[k] != nil)
 //@   ensures noLocks()
 
+// ---------- C14: live update of one process ----------
+// An unknown process is an error and nothing changes; a configuration that Compare finds equal changes nothing (no
+// stop, no new instance); a changed one is removed (flagged, stopped, ended) and then added again exactly once.
+//@ func validateProbes
+//@   assigns health.Probe.InitialDelay[*], health.Probe.PeriodSeconds[*], health.Probe.TimeoutSeconds[*], health.Probe.SuccessThreshold[*], health.Probe.FailureThreshold[*], health.HttpProbe.Host[*], health.HttpProbe.Scheme[*], health.HttpProbe.Path[*], health.HttpProbe.NumPort[*]
+//@ ghost lastCompare() bool
+//@ func (p *ProjectRunner) UpdateProcess
+//@   requires noLocks() && runnerWF(p) && updated != nil && p.project.ShellConfig != nil && p.processStates != nil && p.processLogs != nil && p.project.Processes != nil && p.project.LogLength >= 0
+//@   ensures unknown: !old(updated.ReplicaName in p.project.Processes) ==> result != nil && spawned(fntag("(*app.ProjectRunner).runProcess$1")) == old(spawned(fntag("(*app.ProjectRunner).runProcess$1"))) && stops() == old(stops()) && runs() == old(runs()) && kept("abool")
+//@   ensures removed-first: result == nil && old(updated.ReplicaName in p.runningProcesses) && spawned(fntag("(*app.ProjectRunner).runProcess$1")) > old(spawned(fntag("(*app.ProjectRunner).runProcess$1"))) ==> abool(old(p.runningProcesses[updated.ReplicaName]).isStopped) && old(p.runningProcesses[updated.ReplicaName]).done
+
 // ---------- C10: probe outcomes ----------
 //@ func (p *Process) onReadinessCheckEnd
 //@   requires procWF(p) && unlocked(p) && bufWF(p.logBuffer)
